@@ -7,9 +7,16 @@ import threading as _t
 import types
 
 
+class Abort(BaseException):
+    """raised inside every simulated thread once the step budget of a run is spent (livelock)"""
+
+
 class Sched:
-    def __init__(self, choose):
+    def __init__(self, choose, max_steps=200000):
         self.choose = choose
+        self.max_steps = max_steps
+        self.steps = 0
+        self.abort = False
         self.threads = {}
         self.cur = None
         self.trace = []  # (chosen index, number of runnable threads) per decision
@@ -24,6 +31,8 @@ class Sched:
             st["ev"].wait()
             st["ev"].clear()
             try:
+                if self.abort:
+                    raise Abort()
                 st["res"] = ("ok", fn())
             except BaseException as e:  # noqa: BLE001
                 st["res"] = ("exc", repr(e))
@@ -53,12 +62,30 @@ class Sched:
             return [t for t, s in self.threads.items() if self._ready(s)]
         return []
 
+    def _abort_all(self):
+        self.abort = True
+        self.main_ev.set()
+        for s in self.threads.values():
+            s["ev"].set()
+
     def _switch(self, me, finished=False):
+        if self.abort:
+            if finished:
+                return
+            raise Abort()
+        self.steps += 1
+        if self.steps > self.max_steps:  # the threads keep yielding without the virtual clock ever moving on
+            self._abort_all()
+            if finished:
+                return
+            raise Abort()
         r = self.runnable()
         if not r:
             self.main_ev.set()
             if not finished:
                 self.threads[me]["ev"].wait()
+                if self.abort:
+                    raise Abort()
             return
         i = self.choose(len(r)) % len(r)
         self.trace.append((i, len(r)))
@@ -70,6 +97,8 @@ class Sched:
         if not finished:
             self.threads[me]["ev"].wait()
             self.threads[me]["ev"].clear()
+            if self.abort:
+                raise Abort()
 
     def yield_(self):
         self._switch(self.cur)
@@ -92,6 +121,9 @@ class Sched:
         self.cur = r[i]
         self.threads[self.cur]["ev"].set()
         self.main_ev.wait(wall_timeout)
+        if self.abort:
+            for s in self.threads.values():
+                s["th"].join(2)
         stuck = [t for t, s in self.threads.items() if not s["done"]]
         return {t: s["res"] for t, s in self.threads.items()}, stuck
 
